@@ -271,7 +271,7 @@ type histOpts struct {
 	varBias        int // 0..100: probability (in %) that a bucket is variable-length
 	checkpoints    bool
 	multiPart      bool
-	sameInterval   int // 0..100: probability that a write re-uses an earlier interval of its bucket
+	sameInterval   int  // 0..100: probability that a write re-uses an earlier interval of its bucket
 	uniqueSlots    bool // every (bucket, interval) is written at most once in the history
 	destroys       bool // histories contain Destroy requests of buckets written before (C03 only)
 }
